@@ -27,7 +27,10 @@ const rule = "the path space of C02 (real extender, real combinator, 3-10 ASes, 
 	"links; full, shortcut and peering paths); on every path: (a) for every router of the walk its egress interface down " +
 	"(own external link or the sibling link) or removed from its configuration, (b) every hop field from the second on with " +
 	"ExpTime 0 (expired) or one MAC bit flipped, (c) every hop field with its ConsIngress or ConsEgress router-alert bit set and " +
-	"an SCMP traceroute request (sometimes UDP) as payload; the quick tier samples these per path. The packet goes through " +
+	"an SCMP traceroute request (sometimes UDP) as payload; the quick tier samples these per path; a third of the packets carries " +
+	"a hop-by-hop and/or end-to-end extension header (the latter with an authenticator-shaped option); in addition further networks " +
+	"are searched for peering paths with a segment of >= 3 hop fields and every intermediate (non-peering) hop of such a " +
+	"Peer-flagged segment gets both alert flags, a wrong MAC and the egress faults of its routers. The packet goes through " +
 	"the real routers until one answers; the real slow path builds the reply, which is walked back through the real routers; " +
 	"compared at every router with Network/ScmpReturn; non-trivial = the answering router is not the first router of the walk " +
 	"or the path has >= 2 segments"
@@ -61,7 +64,25 @@ type scenario struct {
 	pf   c10gen.PFault
 	cf   c10gen.CFault
 	tr   bool // SCMP traceroute request as payload
+	ext  int  // extension headers in front of the upper layer: 0 none, 1 HBH, 2 E2E (authenticator-shaped option), 3 both
 	kind string
+}
+
+var extNames = []string{"none", "hbh", "e2e-spao", "hbh+e2e-spao"}
+
+// withExt puts extension headers in front of the upper layer of d.
+func withExt(r *vgen.Rand, d *rtgen.Desc, ext int) {
+	if ext&1 != 0 {
+		d.HBH = []rtgen.Opt{{Type: uint8(r.Range(3, 200)), Data: r.Bytes(r.Range(0, 9))}}
+	}
+	if ext&2 != 0 {
+		// shaped like the packet authenticator option: SPI, algorithm, reserved, timestamp / sequence number, 16-byte tag
+		spao := append([]byte{0, 1, 0, 0, 0, 0}, r.Bytes(6+16)...)
+		d.E2E = []rtgen.Opt{{Type: uint8(slayers.OptTypeAuthenticator), Data: spao}}
+		if r.Bool() {
+			d.E2E = append(d.E2E, rtgen.Opt{Type: uint8(r.Range(3, 200)), Data: r.Bytes(r.Range(0, 5))})
+		}
+	}
 }
 
 // sliceOf returns the slice of hop idx, its offset inside it and the slice length.
@@ -137,6 +158,7 @@ func (x *ctx) runScenario(w *netgen.World, wi int, p *netgen.Path, sc scenario, 
 		trID, trSeq = uint16(r.Range(1024, 65535)), uint16(r.U64())
 		d.L4 = rtgen.SCMPTraceroute(false, trID, trSeq, 0, 0)
 	}
+	withExt(r, d, sc.ext)
 	raw, err := d.Serialize()
 	if err != nil {
 		run.Violate(-1, "cannot serialize: "+err.Error(), nil)
@@ -167,7 +189,7 @@ func (x *ctx) runScenario(w *netgen.World, wi int, p *netgen.Path, sc scenario, 
 	port, portOK, _ := d.L4.DstPort()
 	desc := map[string]any{
 		"topology": w.Net.Name, "src": p.SrcIA.String(), "dst": p.DstIA.String(), "path": p.Kind(),
-		"packet_fault": sc.pf.String(), "router_fault": sc.cf.String(), "l4": d.L4.Name,
+		"packet_fault": sc.pf.String(), "router_fault": sc.cf.String(), "l4": d.L4.Name, "ext": extNames[sc.ext],
 		"raw": fmt.Sprintf("%x", raw), "start_router": start.Rtr, "walk": fw.W.Describe(), "crossed": fw.W.Crossed(),
 	}
 	topo := w.Net.Name
@@ -244,7 +266,8 @@ func (x *ctx) runScenario(w *netgen.World, wi int, p *netgen.Path, sc scenario, 
 	if sc.tr {
 		trq = "(Some (pair " + vgen.N(uint64(trID)) + " " + vgen.N(uint64(trSeq)) + "))"
 	}
-	qoff := len(raw) - rec.PayActual
+	// the upper layer starts behind the SCION header and the extension headers
+	qoff := len(raw) - len(d.L4.Bytes)
 	l4v := "(@nil N)"
 	if an.Slow.Reply != nil {
 		l4v = an.Slow.Reply.L4Term()
@@ -252,7 +275,7 @@ func (x *ctx) runScenario(w *netgen.World, wi int, p *netgen.Path, sc scenario, 
 	term := "(let p := " + netgen.RecTerm(in, port, portOK) + " in let l4v := " + l4v + " in " +
 		vgen.App("ScmpReturn.CRet", topo, fmt.Sprintf("hosts_%d", wi), vgen.N(uint64(fw.W.NowNs)), vgen.N(uint64(nowBack)),
 			fw.W.MacsTerm(), provT, ppT, sc.pf.Term(), sc.cf.Term(),
-			vgen.N(uint64(d.TC)), vgen.N(uint64(d.FlowID)), vgen.N(uint64(d.L4.Proto)), c10gen.Nat(qoff),
+			vgen.N(uint64(d.TC)), vgen.N(uint64(d.FlowID)), vgen.N(uint64(raw[4])), vgen.N(uint64(d.L4.Proto)), c10gen.Nat(qoff),
 			c10gen.Nat(int(in.CurrHF)), c10gen.Nat(int(outRec.CurrHF)), c10gen.HowTerm(an.Loc.Ing), trq, vgen.B(valid),
 			sentT, vgen.N(uint64(start.Rtr)), fw.W.TraceTerm(),
 			c10gen.LocTerm(an.Loc), "p", an.Obs.ResultTerm(d.L4), spgen.BytesInts(an.Obs.Res.Out),
@@ -265,6 +288,7 @@ func (x *ctx) runScenario(w *netgen.World, wi int, p *netgen.Path, sc scenario, 
 		tags = append(tags, KnownTag)
 	}
 	run.Tally("fault:" + sc.kind)
+	run.Tally("ext-headers:" + extNames[sc.ext])
 	run.Tally("answer:" + fw.W.Final.StopDesc + ":" + an.Slow.Kind)
 	run.Tally("answered-over:" + []string{"external", "sibling", "internal"}[an.Loc.Ing.Kind] + "-link")
 	run.Tally(fmt.Sprintf("answer-at-router:%02d-of-walk", len(fw.W.Steps)+1))
@@ -290,6 +314,103 @@ func (x *ctx) runScenario(w *netgen.World, wi int, p *netgen.Path, sc scenario, 
 	}
 }
 
+// longPeering looks through nScan further networks for peering paths whose up or down segment has
+// at least three hop fields (rare: a peering link two levels above the leaf) and injects, at EVERY
+// intermediate hop of such a segment — a non-peering hop of a Peer-flagged segment —, both
+// router-alert flags, a wrong MAC, and the egress faults of the routers that handle that hop.
+func (x *ctx) longPeering(nScan, maxPaths int) {
+	run := x.run
+	base := vgen.NewRand(x.run.Seed ^ 0x5eed10)
+	found, downOnly := 0, 0
+	for k := 0; k < nScan && found < maxPaths; k++ {
+		idx := 1000 + k
+		w := netgen.NewWorld(base.Fork(uint64(k)), idx, x.now)
+		r := base.Fork(uint64(1_000_000 + k))
+		registered := false
+		for _, pr := range w.Pairs(r) {
+			if found >= maxPaths {
+				break
+			}
+			ps, err := w.Paths(r, pr[0], pr[1], 8)
+			if err != nil {
+				continue
+			}
+			for _, p := range ps {
+				if found >= maxPaths {
+					break
+				}
+				if !p.Peering || len(p.Slices) != 2 || (len(p.Slices[0].Hops) < 3 && len(p.Slices[1].Hops) < 3) {
+					continue
+				}
+				// three in four of them with a long UP segment (the reply then runs in construction direction)
+				isDown := len(p.Slices[0].Hops) < 3
+				if isDown && downOnly >= (maxPaths+3)/4 || !isDown && found-downOnly >= maxPaths-(maxPaths+3)/4 {
+					continue
+				}
+				if _, expired, borderline := p.ExpiryMargin(x.now); expired || borderline {
+					continue
+				}
+				p.SetHosts(r, w.Net)
+				p.Dst, p.DstSVC = p.ReplyFrom, false
+				s, err := w.Send(p, nil)
+				if err != nil || !s.Walk.Delivered() {
+					continue
+				}
+				if !registered {
+					registered = true
+					x.defs = append(x.defs,
+						fmt.Sprintf("Definition %s : Network.topology := %s.", w.Net.Name, w.Net.Gallina()),
+						fmt.Sprintf("Definition hosts_%d : list (N * (N * list N)) := %s.", idx, c10gen.HostsTerm(w.Net)))
+				}
+				found++
+				if isDown {
+					downOnly++
+				}
+				run.Tally(fmt.Sprintf("long-peering-path:up=%d,down=%d", len(p.Slices[0].Hops), len(p.Slices[1].Hops)))
+				n0 := len(p.Slices[0].Hops)
+				var mids []int
+				for j := 1; j+1 < n0; j++ {
+					mids = append(mids, j)
+				}
+				for j := 1; j+1 < len(p.Slices[1].Hops); j++ {
+					mids = append(mids, n0+j)
+				}
+				for _, j := range mids {
+					var scs []scenario
+					for _, ingressBit := range []bool{true, false} {
+						scs = append(scs, scenario{pf: c10gen.PFault{Kind: "alert", Idx: j, IA: ingressBit, EA: !ingressBit},
+							tr: true, kind: "alert"})
+					}
+					m := p.Dec.HopFields[j].Mac
+					m[r.Intn(6)] ^= 1 << r.Intn(8)
+					var v uint64
+					for _, b := range m {
+						v = v<<8 | uint64(b)
+					}
+					scs = append(scs, scenario{pf: c10gen.PFault{Kind: "mac", Idx: j, Val: v}, kind: "hop-mac"})
+					for i, st := range s.Walk.Steps {
+						if i == len(s.Walk.Steps)-1 || st.In == nil || int(st.In.CurrHF) != j {
+							continue
+						}
+						a := w.Net.AS(st.IA)
+						for _, kind := range []string{"down", "unknown"} {
+							scs = append(scs, scenario{cf: c10gen.CFault{Kind: kind, AS: a, Rtr: st.Rtr, E: st.Egress}, kind: "egress-" + kind})
+						}
+					}
+					for _, sc := range scs {
+						if r.Chance(1, 3) {
+							sc.ext = r.Range(1, 3)
+						}
+						sc.kind += "@peering-segment-middle"
+						x.runScenario(w, idx, p, sc, r, false)
+					}
+				}
+			}
+		}
+	}
+	run.Tally(fmt.Sprintf("long-peering-paths-found:%d", found))
+}
+
 func main() {
 	run := vgen.Flags("C10")
 	run.Imports = []string{"Model.Router", "Model.Network", "Model.Prov", "Model.RouterScmp", "Model.ScmpReturn"}
@@ -303,7 +424,7 @@ func main() {
 	}
 	x := &ctx{run: run, rng: vgen.NewRand(run.Seed), now: time.Now().Unix()}
 	nWorlds := run.Count(6, 150)
-	perWorld, nCfg, nAlert, nHop := 5, 3, 4, 3
+	perWorld, nCfg, nAlert, nHop := 5, 3, 3, 3
 	if run.Tier == "thorough" {
 		perWorld, nCfg, nAlert, nHop = 25, -1, -1, -1
 	}
@@ -363,12 +484,17 @@ func main() {
 					scs = append(scs, a)
 				}
 				for _, sc := range scs {
+					// a share of the offending packets and traceroute requests carries extension headers
+					if r.Chance(1, 3) {
+						sc.ext = r.Range(1, 3)
+					}
 					x.runScenario(w, wi, p, sc, r, false)
 				}
 				count++
 			}
 		}
 	}
+	x.longPeering(run.Count(60, 600), run.Count(4, 80))
 	_ = addr.IA(0)
 	run.Prelude = "From Coq Require Import PrimInt63.\n" + netgen.IADefs() + strings.Join(x.defs, "\n")
 	run.Finish()
